@@ -201,6 +201,30 @@ func c19CompositeDFATie(r *Report) {
 			}
 		}
 		pt.expected = exp
+		// a failed attempt directly followed by a full match that starts INSIDE the bytes the attempt consumed: m[:cut] + m for sampled
+		// matches m (a search that resumes behind the byte that killed the attempt instead of one byte further skips it)
+		{
+			srng := NewRNG(uint64(len(pt.p))*0x9E37 + 7)
+			for k := 0; k < 4; k++ {
+				b := 24
+				m := sampleMatch(srng, pt.re, nil, &b)
+				if len(m) == 0 || len(m) > 16 || !isASCIIBytes(m) {
+					continue
+				}
+				for cut := 1; cut < len(m); cut++ {
+					h := append(append([]byte(nil), m[:cut]...), m...)
+					mm := "false"
+					if isM(h) == "T" {
+						mm = "true"
+					}
+					w := one(h, 0)
+					if w == "n" {
+						w = "nil"
+					}
+					res.long = append(res.long, longCase{h, 0, w, mm})
+				}
+			}
+		}
 		if pt.sumMin > L {
 			for _, h := range c19CdfaLongHays(pt.p, pt.alpha, pt.sumMin) {
 				m := "false"
